@@ -36,8 +36,7 @@ def rankRowOk (env : Env) (d : Draft) (base : List (Str × Json)) (D : Str → J
             | some u => tgtSame D rank top kvs u t
             | none => true)
          | none => true)
-      | some .null => false
-      | some _ => true
+      | some v => properRef v
       | none =>
         (insideTops env d top kvs).all fun top' => kvs.all fun kv =>
           match lookupS kv.1 d.keywords with
@@ -80,13 +79,15 @@ theorem tgtSub_sound {D : Str → Json → Bool} {top' : Str} {t : Json}
 theorem ranked_of_rankOk (h : rankOk env d base tops nodes rank R = true) :
     Ranked env d base (domOf d tops nodes) rank
     ∧ ∀ top kvs, domOf d tops nodes top (.obj kvs) = true → rank top (.obj kvs) ≤ R := by
-  refine ⟨⟨fun top kvs hs hnull => ?_, fun top kvs rs hs hl url t hdes u hu => ?_,
+  refine ⟨⟨fun top kvs hs v hv => ?_, fun top kvs rs hs hl url t hdes u hu => ?_,
     fun top kvs hs hl top' htop' k v f hkv hfk => ?_⟩, fun top kvs hs => ?_⟩
   · have hr := rankRowOk_of_rankOk h hs
     simp only [rankRowOk, Bool.and_eq_true] at hr
     have h2 := hr.2
-    rw [hnull] at h2
-    exact nomatch h2
+    rw [hv] at h2
+    cases v with
+    | str rs => rfl
+    | _ => exact h2
   · have hr := rankRowOk_of_rankOk h hs
     simp only [rankRowOk, Bool.and_eq_true] at hr
     have h2 := hr.2
